@@ -13,3 +13,13 @@ func VerifC05AcceptHeader(raw []byte) int {
 	}
 	return int(acceptHeader(h))
 }
+
+// VerifC05PoisonTX fills the job's transmit slab with b. The owned UDP/TCP
+// jobs lease their TX slab unscrubbed (it still holds the previous reply);
+// poisoning it before a serve makes every byte a body builder forgets to
+// write visible. Test double state only.
+func VerifC05PoisonTX(j *VerifJob, b byte) {
+	for i := range j.tx {
+		j.tx[i] = b
+	}
+}
